@@ -77,7 +77,7 @@ type scenario struct {
 	// whatever the TNC has delivered by then - in particular more frames than the library's queue of 4096 holds: the
 	// library then makes the TNC wait (for up to a minute), it does not drop what was delivered.
 	LateReaderMS int `json:"late_reader_ms,omitempty"`
-	CutN    int    `json:"cut_n,omitempty"`
+	CutN         int `json:"cut_n,omitempty"`
 }
 
 var Check = &vrt.Check{
